@@ -34,11 +34,13 @@ def model(chk: Check, tier: str):
     chk.add(states=r.distinct, transitions=r.generated)
 
 
-def encode_decode(fmt: str, msg, q: int):
+def encode_decode(fmt: str, msg, q: int, enc=None, dec=None):
+    """fresh encoder / decoder per message unless a long-lived pair is handed in (history pass)"""
     from nmea2000.decoder import NMEA2000Decoder
     from nmea2000.encoder import NMEA2000Encoder
-    enc, dec = NMEA2000Encoder(), NMEA2000Decoder()
-    enc.sequence_counter = q
+    if enc is None:
+        enc, dec = NMEA2000Encoder(), NMEA2000Decoder()
+        enc.sequence_counter = q
     rec = {"fmt": fmt, "packets": [], "tokens": [], "back": "none", "backmsg": {}, "accepted": [], "err": ""}
     try:
         if fmt == "ebyte":
@@ -124,6 +126,40 @@ def bind(chk: Check, tier: str, seed: int):
                 n_corr += 1
             recs.append(rec)
             meta.append((d["id"], fmt))
+    n_fresh = len(recs)
+    # history pass: one long-lived encoder and decoder per format, as a gateway client uses them; the same
+    # definition is sent again with another destination, source or priority (anything the instances remember
+    # from earlier messages must not show), the sequence counter is whatever the earlier messages left
+    import copy
+    hist = [x for x in picked if ((x[0]["pgn"] >> 8) & 0xFF) < 240][:{"quick": 40, "thorough": 200, "selftest": 8}[tier]] \
+        + [x for x in picked if ((x[0]["pgn"] >> 8) & 0xFF) >= 240][:{"quick": 40, "thorough": 200, "selftest": 8}[tier]]
+    for fmt in ("ebyte", "usb", "yd", "actisense"):
+        enc = NMEA2000Encoder()
+        from nmea2000.decoder import NMEA2000Decoder
+        dec = NMEA2000Decoder()
+        for m, d, msg in hist:
+            pdu1 = ((m["pgn"] >> 8) & 0xFF) < 240
+            base = (m["src"], m["dst"], m["prio"])
+            variants = [base, (m["src"], 36 if pdu1 else 255, m["prio"]), (m["src"], 255, m["prio"]), base,
+                        ((m["src"] + 1) % 254, m["dst"], m["prio"]), (m["src"], m["dst"], (m["prio"] + 1) % 8)]
+            for src, dst, prio in variants:
+                msg2 = copy.copy(msg)
+                msg2.source, msg2.destination, msg2.priority = src, dst, prio
+                m2 = dict(m, src=src, dst=dst, prio=prio, q=enc.sequence_counter)
+                try:
+                    m2["payload"] = list(payload_of_actisense(NMEA2000Encoder().encode_actisense(msg2)))
+                except Exception:          # noqa: BLE001
+                    continue
+                rec, out = encode_decode(fmt, msg2, m2["q"], enc, dec)
+                if rec is None:
+                    continue
+                rec["m"] = m2
+                rec["orig"] = proj(msg2, d, raw_by_id[d["id"]])
+                if rec["back"] == "msg":
+                    rec["backmsg"] = proj(out, by_id.get(out.id), raw_by_id.get(out.id))
+                recs.append(rec)
+                meta.append((d["id"], fmt))
+    chk.add(history_pass_outputs=len(recs) - n_fresh)
     chk.gate(len(recs) >= (150 if tier == "selftest" else 800), f"only {len(recs)} encoder outputs")
     chk.gate(n_corr >= 2, "no USB packet was available for the corruption sweep")
     v = run_wire("C06", recs, wd, "c06")
